@@ -1,7 +1,7 @@
 (* C13: define-then-delete is the identity; feature dependencies stay consistent
    (statements only; proofs in DepsProofs.v / DepsTables.v). *)
 From Coq Require Import ZArith List Bool Arith Lia.
-From CV Require Import Base.Num C13.DepsModel C13.InvModel C13.DepsProofs C13.DepsTables C13.ModuleModel C13.ModuleProofs C13.DepsInv C13.ModuleInv C13.ModuleRooted C13.EnableExcl C13.EnableWitness C13.UserFeatures C13.CrossC08 C13.IdentityProofs C13.NameModel C13.SchedProofs Gen.GenDeps.
+From CV Require Import Base.Num C13.DepsModel C13.InvModel C13.DepsProofs C13.DepsTables C13.ModuleModel C13.ModuleProofs C13.DepsInv C13.ModuleInv C13.ModuleRooted C13.EnableExcl C13.EnableWitness C13.UserFeatures C13.CrossC08 C13.IdentityProofs C13.NameModel C13.SchedProofs C13.NameRefModel Gen.GenDeps.
 Import ListNotations.
 Open Scope nat_scope.
 
@@ -648,3 +648,50 @@ Example C13_example_uncounted_request : exists m m',
 Proof.
   do 2 eexists. split; [vm_compute; reflexivity|]. repeat (split; [vm_compute; reflexivity|]). vm_compute. reflexivity.
 Qed.
+
+(* FULL STATEMENT (false of the code, finding F9): defining a bias and deleting it restores every feature state of its variables.
+   Counterexample on the real tables: the bias requests hide_Jacobian_force (12, a user feature) of its variable by a top-level
+   enable (abf with hideJacobian on); nothing counts that request, so no deletion can give it back
+   (C13_deletions_keep_uncounted_requests): after the deletion of its ONLY holder the feature is still on, and off in the
+   history in which the bias never existed.  Replayed on the implementation every run (witness W_F9). *)
+Theorem C13_define_delete_holder_identity_refuted : exists m0 m m',
+  m_run gen_tables 40 f9_base (m_empty 3) = Some m0 /\ is_enabled (m_objs m0) 0 12 = false /\
+  m_run gen_tables 40 f9_holder m0 = Some m /\ is_enabled (m_objs m) 0 12 = true /\ rc (m_objs m) 0 12 = 0%Z /\
+  m_run gen_tables 40 [MDeleteBias 3] m = Some m' /\ alive_in (m_info m') 3 = false /\
+  is_enabled (m_objs m') 0 12 = true /\ is_enabled (m_objs m') 0 11 = true.
+Proof. exact only_holder_witness. Qed.
+Print Assumptions C13_define_delete_holder_identity_refuted.
+
+(* ==== references to another object by NAME ====
+   The only reference by name that the library follows while running is colvar::calc_acf (corrFuncWithColvar): the rule it relies
+   on, and that this model states, is that the name is RESOLVED AT EVERY USE in the table of live objects (cvm::colvar_by_name),
+   never kept as a pointer: `resolve` is that lookup; objects are numbered by their definition.  For every history: right after
+   the deletion of a name it resolves to nothing (the step reports `not defined at this time`), it keeps resolving to nothing
+   whatever else is defined, deleted or reset, and when it is defined again it resolves to the NEW object, which is none of the
+   objects that existed before the deletion nor any object alive now. *)
+Theorem C13_name_reference_resolved_at_use : forall (ps qs : list rop) (name : nat),
+  (forall n, In (RDefine n) qs -> n <> name) ->
+  let s := r_run ps r_empty in
+  let s1 := r_run qs (r_step (RDelete name) s) in
+  resolve (r_step (RDelete name) s) name = None /\
+  resolve s1 name = None /\
+  resolve (r_step (RDefine name) s1) name = Some (r_next s1) /\
+  (forall n o, In (n, o) (r_live s) -> o < r_next s1) /\
+  (forall n o, In (n, o) (r_live s1) -> o <> r_next s1).
+Proof. exact delete_then_redefine. Qed.
+Print Assumptions C13_name_reference_resolved_at_use.
+
+(* operations on OTHER names never change what a name resolves to *)
+Theorem C13_name_reference_unaffected_by_other_names : forall (s : rstate) (p : rop) (name : nat),
+  (forall n, p = RDefine n \/ p = RDelete n -> n <> name) -> p <> RReset ->
+  resolve (r_step p s) name = resolve s name.
+Proof. exact resolve_other_name. Qed.
+Print Assumptions C13_name_reference_unaffected_by_other_names.
+
+(* non-vacuity (witness W_C): y = name 0 and x = name 1 defined (objects 0, 1); y deleted: resolves to nothing; x untouched;
+   another variable (name 2, object 2) defined meanwhile; y defined again: object 3, not object 0 *)
+Example C13_example_name_reference :
+  let s := r_run [RDefine 0; RDefine 1] r_empty in
+  resolve s 0 = Some 0 /\ resolve (r_step (RDelete 0) s) 0 = None /\ resolve (r_step (RDelete 0) s) 1 = Some 1 /\
+  resolve (r_run [RDelete 0; RDefine 2; RDefine 0] s) 0 = Some 3.
+Proof. vm_compute. repeat split; reflexivity. Qed.
